@@ -369,6 +369,11 @@ func (cv CertValidity) toTimeStruct() (config.CertificateValidity, error) {
 		}
 	}
 
+	//neither ASN.1 nor the config hash can represent years beyond 9999
+	if out.Until.Year() > 9999 || out.Until.UTC().Year() > 9999 {
+		return out, errors.New(`config-v1: validity ends after the year 9999`)
+	}
+
 	return out, nil
 }
 
